@@ -124,6 +124,49 @@ def check_tables(idx: Index, rep: Report) -> None:
             r.ok(inst, f"{c.loc} folder and interpreter both use `{sym}`")
         else:
             r.fail(inst, Finding("C14.R3", d.fq, f"operator-mismatch:{opname}", f"the folder computes `lhs {sym} rhs` for {opname} but the interpreter returns `{t[:80]}`", d.loc))
+    # every other integer op that acquires a py_operation: the Python operator must be valid on the *signed
+    # representatives* in which signless IntegerAttr values are stored (200 : i8 is stored as -56)
+    ALLOWED = {
+        "ShLIOp": ("lhs << rhs", "agnostic", True), "ShRSIOp": ("lhs >> rhs", "signed", True), "ShRUIOp": ("lhs >> rhs", "unsigned", True),
+        "FloorDivSIOp": ("lhs // rhs", "signed", False), "DivUIOp": ("lhs // rhs", "unsigned", False), "RemUIOp": ("lhs % rhs", "unsigned", False),
+        "MaxSIOp": ("max(lhs, rhs)", "signed", False), "MinSIOp": ("min(lhs, rhs)", "signed", False), "MaxUIOp": ("max(lhs, rhs)", "unsigned", False), "MinUIOp": ("min(lhs, rhs)", "unsigned", False),
+        "CeilDivUIOp": ("-(-lhs // rhs)", "unsigned", False), "CeilDivSIOp": ("-(-lhs // rhs)", "signed", False),
+    }
+    for c in arith_mod.classes.values():
+        if c.name in PYOP or not idx.is_subclass(c, "SignlessIntegerBinaryOperation") or c.name.startswith("SignlessIntegerBinaryOperation"):
+            continue
+        po = c.method("py_operation")
+        if po is None:
+            continue
+        inst = f"py_operation:{c.name}"
+        rets = [n for n in walk_local(po.node) if isinstance(n, ast.Return) and n.value is not None and unparse(n.value) != "None"]
+        ref = ALLOWED.get(c.name)
+        if ref is None:
+            r.fail(inst, Finding("C14.R3", c.fq, f"py-operation-unreviewed:{c.name}", f"{c.name} defines py_operation (`{unparse(rets[0]) if rets else '?'}`) but has no entry in the reference table of folds that are valid on signed representatives (truncating division and remainder differ from Python's // and %)", po.loc))
+            continue
+        expr, sem, is_shift = ref
+        bad = None
+        for rt in rets:
+            if unparse(rt.value) != expr:
+                bad = f"returns `{unparse(rt.value)}`; the reference realisation is `{expr}`"
+                break
+            facts = [(unparse(t), pol) for t, pol in guard_facts(po.node, rt)]
+            def nonneg(v: str) -> bool:
+                return (f"{v} < 0", False) in facts or (f"{v} >= 0", True) in facts
+            if is_shift and not nonneg("rhs"):
+                bad = "shifts by a negative amount are not excluded (Python raises ValueError; MLIR gives poison)"
+                break
+            if sem == "unsigned" and not (nonneg("lhs") and (is_shift or nonneg("rhs"))):
+                bad = f"`{expr}` is applied to the stored signed representatives: an operand with the top bit set is negative in Python, so the unsigned operation is computed on the wrong value (shrui -128, 1 : i8 folds to 0xC0 instead of 0x40); the fold is only valid when the operands are tested non-negative"
+                break
+            if not is_shift and "//" in expr or "%" in expr:
+                if ("rhs == 0", False) not in facts and ("rhs != 0", True) not in facts and ("rhs", True) not in facts:
+                    bad = "division by a zero constant is not excluded (ZeroDivisionError inside the folder)"
+                    break
+        if bad:
+            r.fail(inst, Finding("C14.R3", c.fq, f"py-operation:{c.name}", f"{c.name}.py_operation {bad}", po.loc))
+        else:
+            r.ok(inst, f"{po.loc} {c.name}: {expr} on {sem} representatives, guarded")
     f = idx.func(CP, "_fold_const_operation")
     got = {}
     for m in [n for n in walk_local(f.node) if isinstance(n, ast.Match)]:
@@ -273,6 +316,43 @@ def check_int_division(idx: Index, rep: Report) -> None:
         raise AnalysisError("integer implementations not found")
 
 
+CFP = "xdsl/transforms/canonicalization_patterns/cf.py"
+
+
+def check_truth_propagation(idx: Index, rep: Report) -> None:
+    """cond_br %c, ^t, ^e: inside ^t the condition is known true only if ^t has no other predecessor (same for ^e /
+    false).  Each replacement site must be guarded by the predecessor count of the very block it rewrites."""
+    r = rep.rule("C14.R7", "the branch condition is replaced by a constant inside a successor only under `len(<that successor>.predecessors()) == 1`, with true for the then-successor and false for the else-successor", floor=2)
+    f = idx.func(CFP, "CondBranchTruthPropagation.match_and_rewrite")
+    fn = f.node
+    cfg = CFG(fn)
+    opn = fn.args.args[1].arg
+    sites = [c for c in calls_in(fn) if call_attr(c) in ("replace_uses_with_if",)]
+    if len(sites) < 2:
+        raise AnalysisError(f"{f.fq}: expected two replace_uses_with_if sites")
+    for c in sites:
+        lam = next((a for a in c.args if isinstance(a, ast.Lambda)), None)
+        if lam is None or not (isinstance(lam.body, ast.Compare) and isinstance(lam.body.ops[0], ast.Is)):
+            raise AnalysisError(f"{f.fq}: use filter `{unparse(c.args[-1])}` not recognised")
+        blk = resolved_text(cfg, lam.body.comparators[0], cfg.node_of(c))
+        const = resolved_text(cfg, c.args[1], cfg.node_of(c))
+        want_blk = {f"{opn}.then_block": "True", f"{opn}.else_block": "False"}
+        inst = f"{f.fq}:{blk}"
+        loc = f"{f.module.relpath}:{c.lineno}"
+        if blk not in want_blk:
+            raise AnalysisError(f"{f.fq}: rewritten block `{blk}` is not a successor of the branch")
+        guards = []
+        for t, pol in guard_facts(fn, c):
+            if pol and isinstance(t, ast.Compare) and len(t.ops) == 1 and isinstance(t.ops[0], ast.Eq) and unparse(t.comparators[0]) == "1":
+                guards.append(resolved_text(cfg, t.left, cfg.node_of(c)))
+        if f"len({blk}.predecessors())" not in guards:
+            r.fail(inst, Finding("C14.R7", f.fq, f"wrong-predecessor-guard:{blk.split('.')[-1]}", f"uses of the condition inside `{blk}` are replaced under {guards or 'no predecessor test'} instead of `len({blk}.predecessors()) == 1`: when that block is also reached from elsewhere (a merge point) the condition is not known there and results change", loc))
+        elif f"from_bool({want_blk[blk]})" not in const:
+            r.fail(inst, Finding("C14.R7", f.fq, f"wrong-truth-value:{blk.split('.')[-1]}", f"inside `{blk}` the condition is replaced by `{const}`; it must be {want_blk[blk]}", loc))
+        else:
+            r.ok(inst, f"{loc} {blk}: {want_blk[blk]} under a single-predecessor test of the same block")
+
+
 def check(idx: Index, rep: Report, tier: str) -> str:
     rep.run(check_truncation, idx, rep)
     rep.run(check_exceptions, idx, rep)
@@ -280,6 +360,7 @@ def check(idx: Index, rep: Report, tier: str) -> str:
     rep.run(check_fold_guards, idx, rep)
     rep.run(check_cse, idx, rep)
     rep.run(check_int_division, idx, rep)
+    rep.run(check_truth_propagation, idx, rep)
     return (
         "Table-agreement and guard rules over arith's folders, the arith canonicalization patterns, constant-fold-interp, "
         "the constant-folding test pass and CSE: folded integers are truncated, fold patterns catch what the interpreter "
